@@ -32,12 +32,12 @@ PLAN = {
     "C18": [("c18", 0, "plain", 0.8), ("c12", 0, "tsan", 0.2)],
 }
 RUNS = {  # (quick, thorough)
-    "C07": (6000, 400000),
-    "C11": (5000, 250000),
-    "C12": (5000, 300000),
-    "C15": (1500, 100000),
-    "C16": (8000, 500000),
-    "C18": (6000, 400000),
+    "C07": (40000, 1500000),
+    "C11": (15000, 600000),
+    "C12": (8000, 400000),
+    "C15": (8000, 300000),
+    "C16": (60000, 2500000),
+    "C18": (30000, 1200000),
 }
 # which violation kinds belong to which property (Appendix B); everything else seen in a world is logged as
 # "other_findings" and left to the property that owns it
